@@ -455,4 +455,250 @@ Proof.
         apply (node_ok_okp sid e sets). inversion Hkeep_ok; assumption.
 Qed.
 
+(* ---- findAndMakeLoopsAtomic *)
+Definition fa_go (g : rnode -> list frame -> res rnode) (t : Z) (bal : bool) (ctx : list frame) : list rnode -> res (list rnode) :=
+  fix go (ks : list rnode) : res (list rnode) :=
+    match ks with
+    | [] => Ok []
+    | k :: ks' => do k' <- g k (mkF t bal false ks' :: ctx) ; do r <- go ks' ; Ok (k' :: r)
+    end.
+Definition fa_pairs (p : rnode -> rnode -> list frame -> res rnode) (ctx : list frame) : list rnode -> res (list rnode) :=
+  fix pairs (ks : list rnode) : res (list rnode) :=
+    match ks with
+    | a :: ((b :: rest) as tl) =>
+        do a' <- p a b (mkF T_Concatenate false false rest :: ctx) ; do r <- pairs tl ; Ok (a' :: r)
+    | _ => Ok ks
+    end.
+
+Lemma fa_pairs_cc p ctx a b rest :
+  fa_pairs p ctx (a :: b :: rest) =
+  do a' <- p a b (mkF T_Concatenate false false rest :: ctx) ; do r <- fa_pairs p ctx (b :: rest) ; Ok (a' :: r).
+Proof. reflexivity. Qed.
+Lemma fa_go_cons g t bal ctx k ks :
+  fa_go g t bal ctx (k :: ks) = do k' <- g k (mkF t bal false ks :: ctx) ; do r <- fa_go g t bal ctx ks ; Ok (k' :: r).
+Proof. reflexivity. Qed.
+
+Lemma fo_fa_S f x ctx :
+  fo_fa cat_in isw isew (S f) strict x ctx =
+  if useRTL (n_o x) then Ok x
+  else
+    let bal := (n_t x =? T_Capture) && negb (n_n x =? -1) in
+    do kids1 <- fa_go (fun k c => fo_fa cat_in isw isew f strict k c) (n_t x) bal ctx (n_kids x) ;
+    if negb (n_t x =? T_Concatenate) then Ok (set_kids x kids1)
+    else do kids2 <- fa_pairs (fun a b c => fo_pn cat_in isw isew f strict a b c) ctx kids1 ; Ok (set_kids x kids2).
+Proof. reflexivity. Qed.
+
+Section FaStep.
+Variable f : nat.
+Hypothesis IHf : forall x c x', fo_fa cat_in isw isew f strict x c = Ok x' -> node_ok x -> ctx_ok c ->
+  node_ok x' /\ forall K, CK c K -> HK K (tr x) (tr x').
+
+Fixpoint go_rel (t : Z) (bal : bool) (c : list frame) (ks ks1 : list rnode) : Prop :=
+  match ks, ks1 with
+  | [], [] => True
+  | k :: r, k' :: r' =>
+      node_ok k' /\ (forall K, CK (mkF t bal false r :: c) K -> HK K (tr k) (tr k')) /\ go_rel t bal c r r'
+  | _, _ => False
+  end.
+
+Lemma go_sound t bal c : ctx_ok c -> forall ks ks1, Forall node_ok ks ->
+  fa_go (fun k c0 => fo_fa cat_in isw isew f strict k c0) t bal c ks = Ok ks1 -> go_rel t bal c ks ks1.
+Proof.
+  intros Hc. induction ks as [|k r IH]; intros ks1 Hks H.
+  - cbn [fa_go] in H. injection H as <-. exact I.
+  - rewrite fa_go_cons in H. inversion Hks as [|? ? Hk Hr]; subst.
+    destruct (fo_fa cat_in isw isew f strict k (mkF t bal false r :: c)) as [k'| | |] eqn:Ek; cbn [bind] in H; try discriminate.
+    destruct (fa_go (fun k0 c0 => fo_fa cat_in isw isew f strict k0 c0) t bal c r) as [r'| | |] eqn:Er; cbn [bind] in H; try discriminate.
+    injection H as <-. cbn [go_rel].
+    assert (Hc' : ctx_ok (mkF t bal false r :: c)) by (constructor; [exact Hr|exact Hc]).
+    destruct (IHf k _ k' Ek Hk Hc') as [Hk' HHK]. split; [exact Hk'|]. split; [exact HHK|]. apply IH; [exact Hr|reflexivity].
+Qed.
+
+Lemma go_rel_ok t bal c : forall ks ks1, go_rel t bal c ks ks1 -> Forall node_ok ks1 /\ length ks1 = length ks.
+Proof.
+  induction ks as [|k r IH]; intros [|k' r'] H; cbn [go_rel] in H; try contradiction.
+  - split; [constructor|reflexivity].
+  - destruct H as (Hk' & _ & Hr). destruct (IH r' Hr) as [H1 H2]. split; [constructor; assumption | cbn; congruence].
+Qed.
+
+Lemma CK_concat_frame b d rs c K : CK c K -> CK (mkF T_Concatenate b d rs :: c) (kseq (map tr rs) K).
+Proof. intros H. cbn [FinalOptWalk.CK f_t]. cbn. exists K. split; [exact H|reflexivity]. Qed.
+
+Lemma concat_go o c : forall ks ks1, go_rel T_Concatenate false c ks ks1 -> forall pre, Forall node_ok pre ->
+  forall K, CK c K -> HK K (NConcat o (map tr pre ++ map tr ks)) (NConcat o (map tr pre ++ map tr ks1)).
+Proof.
+  induction ks as [|k r IH]; intros [|k' r'] H pre Hpre K HK0; cbn [go_rel] in H; try contradiction; [apply HK_refl|].
+  destruct H as (Hk' & HHK & Hr). cbn [map].
+  eapply HK_trans.
+  - apply HK_concat_at; [apply okps_nodes; exact Hpre|]. apply HHK. apply CK_concat_frame. exact HK0.
+  - replace (map tr pre ++ tr k' :: map tr r) with (map tr (pre ++ [k']) ++ map tr r) by (rewrite map_app, <- app_assoc; reflexivity).
+    replace (map tr pre ++ tr k' :: map tr r') with (map tr (pre ++ [k']) ++ map tr r') by (rewrite map_app, <- app_assoc; reflexivity).
+    apply IH; [exact Hr | apply Forall_app; split; [exact Hpre | constructor; [exact Hk'|constructor]] | exact HK0].
+Qed.
+
+Lemma alt_go o b c : forall ks ks1, go_rel T_Alternate b c ks ks1 -> forall pre,
+  forall K, CK c K -> HK K (NAlternate o (pre ++ map tr ks)) (NAlternate o (pre ++ map tr ks1)).
+Proof.
+  induction ks as [|k r IH]; intros [|k' r'] H pre K HK0; cbn [go_rel] in H; try contradiction; [apply HK_refl|].
+  destruct H as (Hk' & HHK & Hr). cbn [map].
+  eapply HK_trans.
+  - apply HK_alt_at. apply HHK. apply CK_alt_frame. exact HK0.
+  - replace (pre ++ tr k' :: map tr r) with ((pre ++ [tr k']) ++ map tr r) by (rewrite <- app_assoc; reflexivity).
+    replace (pre ++ tr k' :: map tr r') with ((pre ++ [tr k']) ++ map tr r') by (rewrite <- app_assoc; reflexivity).
+    apply IH; [exact Hr | exact HK0].
+Qed.
+
+Lemma pairs_sound o c : ctx_ok c -> forall ks ks2, Forall node_ok ks ->
+  fa_pairs (fun a b c0 => fo_pn cat_in isw isew f strict a b c0) c ks = Ok ks2 ->
+  Forall node_ok ks2 /\ length ks2 = length ks /\
+  forall pre, Forall node_ok pre -> forall K, CK c K ->
+    HK K (NConcat o (map tr pre ++ map tr ks)) (NConcat o (map tr pre ++ map tr ks2)).
+Proof.
+  intros Hc. induction ks as [|a tl IH]; intros ks2 Hks H.
+  - cbn [fa_pairs] in H. injection H as <-. split; [constructor|]. split; [reflexivity|]. intros; apply HK_refl.
+  - destruct tl as [|b rest].
+    + unfold fa_pairs in H. injection H as <-. split; [exact Hks|]. split; [reflexivity|]. intros; apply HK_refl.
+    + rewrite fa_pairs_cc in H.
+      inversion Hks as [|? ? Ha Htl]; subst. inversion Htl as [|? ? Hb Hrest]; subst.
+      destruct (fo_pn cat_in isw isew f strict a b (mkF T_Concatenate false false rest :: c)) as [a'| | |] eqn:Ea; cbn [bind] in H; try discriminate.
+      destruct (fa_pairs (fun a0 b0 c0 => fo_pn cat_in isw isew f strict a0 b0 c0) c (b :: rest)) as [r| | |] eqn:Er; cbn [bind] in H; try discriminate.
+      injection H as <-.
+      assert (Hc' : ctx_ok (mkF T_Concatenate false false rest :: c)) by (constructor; [exact Hrest|exact Hc]).
+      destruct (pn_sound f a b _ a' Ea Ha Hb Hc') as [Ha' HHK].
+      destruct (IH r Htl eq_refl) as (Hr & Hlen & HIH).
+      split; [constructor; assumption|]. split; [cbn [length] in *; lia|].
+      intros pre Hpre K HK0.
+      change (map tr (a :: b :: rest)) with (tr a :: map tr (b :: rest)). change (map tr (a' :: r)) with (tr a' :: map tr r).
+      eapply HK_trans.
+      * apply HK_concat_at; [apply okps_nodes; exact Hpre|].
+        apply HHK. eapply Adm_ext; [intros s; apply (kseq_cons e (tr b) (map tr rest) K s)|].
+        apply Adm_base. apply CK_concat_frame. exact HK0.
+      * replace (map tr pre ++ tr a' :: map tr (b :: rest)) with (map tr (pre ++ [a']) ++ map tr (b :: rest)) by (rewrite map_app, <- app_assoc; reflexivity).
+        replace (map tr pre ++ tr a' :: map tr r) with (map tr (pre ++ [a']) ++ map tr r) by (rewrite map_app, <- app_assoc; reflexivity).
+        apply HIH; [apply Forall_app; split; [exact Hpre | constructor; [exact Ha'|constructor]] | exact HK0].
+Qed.
+
+End FaStep.
+
+Lemma CK_opaque_frame t b d rs c K : (t =? T_Concatenate) = false -> (t =? T_Capture) = false -> (t =? T_Alternate) = false ->
+  (t =? T_Atomic) = false -> CK (mkF t b d rs :: c) K.
+Proof. intros E1 E2 E3 E4. cbn [FinalOptWalk.CK f_t]. rewrite E1, E2, E3, E4. exact I. Qed.
+
+Lemma set_kids_same x : set_kids x (n_kids x) = x.
+Proof. destruct x; reflexivity. Qed.
+
+Theorem fa_sound : forall f x c x',
+  fo_fa cat_in isw isew f strict x c = Ok x' -> node_ok x -> ctx_ok c ->
+  node_ok x' /\ forall K, CK c K -> HK K (tr x) (tr x').
+Proof.
+  induction f as [|f IHf]; intros x c x' H Hx Hc; [discriminate|].
+  rewrite fo_fa_S in H. destruct (useRTL (n_o x)); [injection H as <-; split; [exact Hx|intros; apply HK_refl]|].
+  cbv zeta in H.
+  set (bal := (n_t x =? T_Capture) && negb (n_n x =? -1)) in *.
+  destruct (fa_go (fun k c0 => fo_fa cat_in isw isew f strict k c0) (n_t x) bal c (n_kids x)) as [kids1| | |] eqn:Ego;
+    cbn [bind] in H; try discriminate.
+  assert (Hkids : Forall node_ok (n_kids x)).
+  { rewrite Forall_forall. intros k Hk. exact (node_ok_kid sets x k Hx Hk). }
+  pose proof (go_sound f IHf (n_t x) bal c Hc _ _ Hkids Ego) as Hrel.
+  destruct (go_rel_ok _ _ _ _ _ Hrel) as [Hk1 Hlen1].
+  destruct (negb (n_t x =? T_Concatenate)) eqn:Econ.
+  - injection H as <-.
+    destruct (set_kids_fields x kids1) as (Ht' & Ho' & _ & Hm' & Hn' & _ & _ & Hk').
+    split; [apply node_ok_set_kids; assumption|].
+    intros K HK0.
+    pose proof (fo_wf_arity x (proj1 Hx)) as Har.
+    destruct (n_t x =? T_Alternate) eqn:Ea.
+    { rewrite (tr_alt sid x) by (unfold T_Alternate in *; lia).
+      rewrite (tr_alt sid (set_kids x kids1)) by (rewrite Ht'; unfold T_Alternate in *; lia).
+      rewrite Ho', Hk'. replace (n_t x) with T_Alternate in Hrel by (unfold T_Alternate in *; lia).
+      exact (alt_go (n_o x) bal c _ _ Hrel [] K HK0). }
+    (* one child *)
+    destruct ((n_t x =? 26) || (n_t x =? 27) || (n_t x =? 28) || (n_t x =? 30) || (n_t x =? 31) || (n_t x =? 32)) eqn:E1.
+    { destruct (kids_one x ltac:(lia) (proj1 Hx)) as [k Ek]. rewrite Ek in Hrel.
+      destruct kids1 as [|k' [|? ?]]; cbn [go_rel] in Hrel; try tauto; try (destruct Hrel as (_ & _ & []); fail).
+      destruct Hrel as (Hk'ok & HHK & _).
+      assert (Hokp : okp e (tr k)).
+      { apply (node_ok_okp sid e sets). apply (node_ok_kid sets x); [exact Hx | rewrite Ek; left; reflexivity]. }
+      destruct (n_t x =? 28) eqn:E28.
+      { rewrite (tr_capture sid x k) by (unfold T_Capture; auto || lia).
+        rewrite (tr_capture sid (set_kids x [k']) k') by (rewrite ?Ht'; unfold T_Capture; auto || lia).
+        rewrite Ho', Hm', Hn'. apply HK_capture. intros s Hs. apply HHK; [|exact Hs].
+        cbn [FinalOptWalk.CK f_t]. replace (n_t x =? T_Concatenate) with false by (unfold T_Concatenate; lia).
+        replace (n_t x =? T_Capture) with true by (unfold T_Capture; lia).
+        exists K, (n_m x), (n_n x), s. split; [exact Hs|]. split; [|split; [exact HK0|intros a; reflexivity]].
+        cbn [f_bal]. unfold bal, T_Capture. intros Hb. lia. }
+      destruct (n_t x =? 32) eqn:E32.
+      { rewrite (tr_atomic sid x k) by (unfold T_Atomic; auto || lia).
+        rewrite (tr_atomic sid (set_kids x [k']) k') by (rewrite ?Ht'; unfold T_Atomic; auto || lia).
+        apply HK_atomic. apply HHK.
+        cbn [FinalOptWalk.CK f_t f_desc]. replace (n_t x =? T_Concatenate) with false by (unfold T_Concatenate; lia).
+        replace (n_t x =? T_Capture) with false by (unfold T_Capture; lia).
+        replace (n_t x =? T_Alternate) with false by (unfold T_Alternate; lia).
+        replace (n_t x =? T_Atomic) with true by (unfold T_Atomic; lia). cbn [negb andb]. apply KT_kid. }
+      assert (Hopq : forall K1, CK (mkF (n_t x) bal false [] :: c) K1).
+      { intros K1. apply CK_opaque_frame; unfold T_Concatenate, T_Capture, T_Alternate, T_Atomic; lia. }
+      destruct (n_t x =? 30) eqn:E30.
+      { rewrite (tr_poslook sid x k) by (unfold T_PosLook; auto || lia).
+        rewrite (tr_poslook sid (set_kids x [k']) k') by (rewrite ?Ht'; unfold T_PosLook; auto || lia).
+        rewrite Ho'. apply HK_poslook. apply HHK. apply Hopq. }
+      destruct (n_t x =? 31) eqn:E31.
+      { rewrite (tr_neglook sid x k) by (unfold T_NegLook; auto || lia).
+        rewrite (tr_neglook sid (set_kids x [k']) k') by (rewrite ?Ht'; unfold T_NegLook; auto || lia).
+        rewrite Ho'. apply HK_neglook. apply HHK. apply Hopq. }
+      destruct (n_t x =? 26) eqn:E26.
+      { rewrite (tr_loop sid x k) by (unfold T_Loop; auto || lia).
+        rewrite (tr_loop sid (set_kids x [k']) k') by (rewrite ?Ht'; unfold T_Loop; auto || lia).
+        rewrite Ho', Hm', Hn'. apply HK_loop; [exact Hokp|]. intros F. apply HHK. apply Hopq. }
+      rewrite (tr_lazyloop sid x k) by (unfold T_Lazyloop; auto || lia).
+      rewrite (tr_lazyloop sid (set_kids x [k']) k') by (rewrite ?Ht'; unfold T_Lazyloop; auto || lia).
+      rewrite Ho', Hm', Hn'. apply HK_loop; [exact Hokp|]. intros F. apply HHK. apply Hopq. }
+    destruct (n_t x =? 33) eqn:E33.
+    { destruct (kids_two x ltac:(lia) (proj1 Hx)) as (y & nn & Ek). rewrite Ek in Hrel.
+      destruct kids1 as [|y' [|nn' [|? ?]]]; cbn [go_rel] in Hrel; try tauto;
+        try (destruct Hrel as (_ & _ & []); fail); try (destruct Hrel as (_ & _ & _ & _ & []); fail).
+      destruct Hrel as (_ & HHy & _ & HHn & _).
+      rewrite (tr_backref_cond sid x y nn) by (unfold T_BackRefCond; auto || lia).
+      rewrite (tr_backref_cond sid (set_kids x [y'; nn']) y' nn') by (rewrite ?Ht'; unfold T_BackRefCond; auto || lia).
+      rewrite Ho', Hm'.
+      apply HK_backref_cond; [apply HHy | apply HHn]; apply CK_opaque_frame; unfold T_Concatenate, T_Capture, T_Alternate, T_Atomic; lia. }
+    destruct (n_t x =? 34) eqn:E34.
+    { destruct (kids_three x ltac:(lia) (proj1 Hx)) as (c0 & y & nn & Ek). rewrite Ek in Hrel.
+      destruct kids1 as [|c0' [|y' [|nn' [|? ?]]]]; cbn [go_rel] in Hrel; try tauto;
+        try (destruct Hrel as (_ & _ & []); fail); try (destruct Hrel as (_ & _ & _ & _ & []); fail);
+        try (destruct Hrel as (_ & _ & _ & _ & _ & _ & []); fail).
+      destruct Hrel as (_ & HHc & _ & HHy & _ & HHn & _).
+      rewrite (tr_expr_cond sid x c0 y nn) by (unfold T_ExprCond; auto || lia).
+      rewrite (tr_expr_cond sid (set_kids x [c0'; y'; nn']) c0' y' nn') by (rewrite ?Ht'; unfold T_ExprCond; auto || lia).
+      rewrite Ho'.
+      apply HK_expr_cond.
+      - apply (node_ok_okp sid e sets). apply (node_ok_kid sets x); [exact Hx | rewrite Ek; left; reflexivity].
+      - apply HHc. apply CK_opaque_frame; unfold T_Concatenate, T_Capture, T_Alternate, T_Atomic; lia.
+      - apply HHy. apply CK_opaque_frame; unfold T_Concatenate, T_Capture, T_Alternate, T_Atomic; lia.
+      - apply HHn. apply CK_opaque_frame; unfold T_Concatenate, T_Capture, T_Alternate, T_Atomic; lia. }
+    (* a leaf *)
+    assert (Hk0 : n_kids x = []).
+    { unfold fo_arity_ok in Har. destruct (fo_is_leaf_t (n_t x)).
+      - destruct (n_kids x); [reflexivity|discriminate].
+      - exfalso. rewrite E1, E33, E34 in Har. unfold T_Alternate, T_Concatenate in *. lia. }
+    rewrite Hk0 in Hrel. destruct kids1; cbn [go_rel] in Hrel; [|contradiction].
+    rewrite <- Hk0, set_kids_same. apply HK_refl.
+  - (* a concatenation: then the pairs *)
+    destruct (fa_pairs (fun a b c0 => fo_pn cat_in isw isew f strict a b c0) c kids1) as [kids2| | |] eqn:Ep;
+      cbn [bind] in H; try discriminate.
+    injection H as <-.
+    destruct (pairs_sound f (n_o x) c Hc kids1 kids2 Hk1 Ep) as (Hk2 & Hlen2 & HP).
+    destruct (set_kids_fields x kids2) as (Ht' & Ho' & _ & _ & _ & _ & _ & Hk').
+    split; [apply node_ok_set_kids; [exact Hx | lia | exact Hk2]|].
+    intros K HK0.
+    rewrite (tr_concat sid x) by (unfold T_Concatenate in *; lia).
+    rewrite (tr_concat sid (set_kids x kids2)) by (rewrite Ht'; unfold T_Concatenate in *; lia).
+    rewrite Ho', Hk'.
+    replace (n_t x) with T_Concatenate in Hrel by (unfold T_Concatenate in *; lia).
+    assert (Hbal : bal = false) by (unfold bal, T_Capture, T_Concatenate in *; lia).
+    rewrite Hbal in Hrel.
+    eapply HK_trans.
+    + exact (concat_go (n_o x) c _ _ Hrel [] (Forall_nil _) K HK0).
+    + exact (HP [] (Forall_nil _) K HK0).
+Qed.
+
 End Atomic.
